@@ -49,7 +49,8 @@ RULE = ("A: random filter trees (depth <= 4, leaves: name/type patterns, field e
         "C: export/import and freeze/thaw of every pooled entry. distinct_nontrivial = distinct (filter shape, entry kind, "
         "verdict) triples + distinct view states"
         ". Round-5 addition: ordering of vector fields is decided by the reference itself, axis by axis, and literals include vectors that tie on some axes and differ on others"
-        ". Rounds 6-7: != is judged as the negation of ==; directed equality pairs in the other spelling a value accepts (vector vs tuple, unterminated text vs string); wildcards in the sub-field position aimed at the last / first key and at values only some keys have; three time zones; dates in exported event-queue entries compared as instants")
+        ". Rounds 6-7: != is judged as the negation of ==; directed equality pairs in the other spelling a value accepts (vector vs tuple, unterminated text vs string); wildcards in the sub-field position aimed at the last / first key and at values only some keys have; three time zones; dates in exported event-queue entries compared as instants"
+        ". Round 8: entries frozen while the lazily parsed body is untouched (as encoded, zero runs split differently, body cut short, garbage body): live and thawed message still serialise to the datagram")
 ASSUMPTIONS = [
     "a chain that mixes && and || without parentheses is not generated: the text does not say which combination is meant",
     "whether an operator 'can be applied' to a field is decided by Python's own operator on the logged value; when that "
